@@ -146,7 +146,7 @@ def make_prog(rng, base=None, opts=None):
     sps = [p for p in allp if p["struct"] and p["fields"]]
     if sps and rng.random() < opts.get("lit_p", 0.06):
         p = rng.choice(sps)
-        kind = rng.choice(["case", "unknown", "raw", "case"])
+        kind = rng.choice(["case", "unknown", "raw", "case", "star-extra", "star-extra"])
         names = list(p["fields"])
         j = rng.randrange(len(names))
         lits = ['"%s"' % n for n in names]
@@ -154,6 +154,8 @@ def make_prog(rng, base=None, opts=None):
             lits[j] = '"%s"' % (names[j].lower() if names[j].lower() != names[j] else names[j].upper())
         elif kind == "unknown":
             lits[j] = '"Nope%d"' % p["id"]
+        elif kind == "star-extra":      # "*" followed by more names is not the wildcard: "*" is then looked up as a field name
+            lits = ['"*"', rng.choice(['"%s"' % names[j], '"Nope%d"' % p["id"], '"*"'])]
         else:
             lits[j] = "`%s`" % names[j]
         for q in allp:
